@@ -12,6 +12,7 @@ variable it was copied from, and boolean locals remember the comparison they
 hold (bool local -> (op, key, key)) so that a later branch refines it.
 Locals whose address is taken mutably are never tracked.
 """
+import re
 from . import ir
 
 TOP_LEN = (0, (1 << 63) - 1)
@@ -19,6 +20,11 @@ MAX_ARRAY = 64
 WIDEN_AFTER = 3
 NEG = {"Lt": "Ge", "Le": "Gt", "Gt": "Le", "Ge": "Lt", "Eq": "Ne", "Ne": "Eq"}
 CMP = ("Eq", "Ne", "Lt", "Le", "Gt", "Ge")
+
+
+# From between integer types is lossless by definition
+_FROM_INT = re.compile(r"core::convert::num::<impl core::convert::From<(u8|u16|u32|u64|usize|bool|i8|i16|i32|i64|isize)> for "
+                       r"(u16|u32|u64|u128|usize|i16|i32|i64|i128|isize)>::from")
 
 
 def ty_range(tn):
@@ -812,8 +818,27 @@ class Analysis:
                     op = rv["op"][:-len("WithOverflow")]
                     if op == "Add":
                         ex = (a[0] + b[0], a[1] + b[1])
+                        ka, kb = self.operand_key(st, rv["a"]), self.operand_key(st, rv["b"])
+                        for x, y in ((ka, kb), (kb, ka)):
+                            if x is None or y is None or is_c(x):
+                                continue
+                            for e in st.ub.get(x, ()):
+                                sy = st.sym.get(e)
+                                if sy is not None and sy[2] == y and sy[0] == "sub":
+                                    ex = (ex[0], min(ex[1], sy[1] - 1))   # x < C - y  =>  x + y <= C - 1
                     elif op == "Sub":
                         ex = (a[0] - b[1], a[1] - b[0])
+                        ka, kb = self.operand_key(st, rv["a"]), self.operand_key(st, rv["b"])
+                        if ka is not None and kb is not None and not is_c(kb):
+                            if ka == kb or ka in st.ub.get(kb, ()):
+                                ex = (max(ex[0], 0 if ka == kb else 1), ex[1])   # b <= a / b < a
+                            sa = st.sym.get(ka) if not is_c(ka) else None
+                            if sa is not None and sa[0] == "sub":
+                                # A = C1 - i ;  i < C - B (no wrap)  =>  A - B >= C1 - C + 1
+                                for e in st.ub.get(sa[2], ()):
+                                    sy = st.sym.get(e)
+                                    if sy is not None and sy[0] == "sub" and sy[2] == kb and sa[1] - sy[1] + 1 >= 0:
+                                        ex = (max(ex[0], sa[1] - sy[1] + 1), ex[1])
                     elif op == "Mul":
                         c = [a[0] * b[0], a[0] * b[1], a[1] * b[0], a[1] * b[1]]
                         ex = (min(c), max(c))
@@ -822,12 +847,19 @@ class Analysis:
                     if ex is not None and ex[0] >= erng[0] and ex[1] <= erng[1]:
                         new_paths[(("f", 0),)] = ex
                         new_paths[(("f", 1),)] = (0, 0)
+                        if op == "Sub":
+                            ka, kb = self.operand_key(st, rv["a"]), self.operand_key(st, rv["b"])
+                            if ka is not None and kb is not None and is_c(ka) and not is_c(kb) and key_root(kb) != l \
+                                    and b[0] >= 0 and b[1] <= ka[1]:
+                                new_sym[(("f", 0),)] = ("sub", ka[1], kb)
                     else:
                         new_paths[(("f", 0),)] = erng
                         new_paths[(("f", 1),)] = (0, 1)
                 self.kill_local(st, l)
                 for p_, v_ in new_paths.items():
                     st.iv[("pl", l, p_)] = v_
+                for p_, v_ in new_sym.items():
+                    st.sym[("pl", l, p_)] = v_
                 return
             if rv["r"] == "agg" and rv.get("kind") in ("tuple", "adt"):
                 pre = (("dc", rv["vidx"]),) if (rv.get("kind") == "adt" and self._is_enum(rv["def"])) else ()
@@ -914,6 +946,9 @@ class Analysis:
                 ftn = self.v.local_tyname(a["l"]) if not a["p"] else ("u64" if self.plimb_key(a) else None)
             if sk is not None and not is_c(sk) and ftn in ir.INT_BITS and key_root(sk) != l:
                 castrel = ("cast", sk, ftn, tn)
+        if symv is None and rv["r"] == "use" and alias is not None and alias in st.sym and key_root(st.sym[alias][2]) != l \
+                and key_root(alias) != l:
+            symv = st.sym[alias]   # copy of a value with a known `C - k` form (e.g. field .0 of a checked pair)
         self.kill_local(st, l)
         if castrel is not None:
             st.rel[l] = castrel
@@ -995,6 +1030,8 @@ class Analysis:
                       "core::convert::num::<impl core::convert::From<u8> for u64>::from",
                       "core::convert::num::<impl core::convert::From<u32> for u64>::from") and args:
             iv, _ = self.eval_operand(st, args[0])
+        elif name is not None and _FROM_INT.fullmatch(name) and args:
+            iv, _ = self.eval_operand(st, args[0])   # lossless integer widening
         elif name in self.IDENTITY_CALLS and a0_local is not None and a0_local not in self.escaped:
             for k, v in st.iv.items():
                 if isinstance(k, tuple) and k[0] == "pl" and k[1] == a0_local:
@@ -1065,8 +1102,9 @@ class Analysis:
         self.kill_local(st, d)
         if obs is not None and d not in self.escaped:
             st.rel[d] = obs
-            if self.v.cfg is not None and iv is None:
-                iv = (0, self.v.cfg[0])
+            if self.v.cfg is not None:
+                # trusted (C06): bit_len and leading_zeros of a BITS-wide value lie in [0, BITS]
+                iv = (0, self.v.cfg[0]) if iv is None else meet(iv, (0, self.v.cfg[0]))
         if restore is not None:
             x, elems = restore
             if x in self.arrlen and x not in self.escaped:
